@@ -34,6 +34,15 @@ package main
 //	racestart W                    hold the worker's first database read, Start, RemoveWallet at once (D10) -> accepted stopped | PANIC …
 //	await                          (after restart + start) wait until no wallet is importing / removing -> wallets string | TIMEOUT
 //	stop                           plain Stop with watchdog                                       -> stopped | HANG
+//	live remove W N | live import I N | live none - N
+//	                               the running side (eng_proto_live.go): N block notifications queued behind a held
+//	                               follower, the task queued (the worker parks at suspend), follower released, NO stop:
+//	                               wait until the follower has processed all N blocks and the task has finished
+//	                                                                                               -> done | TIMEOUT … | nogate | rejected
+//	livef remove W N K | livef import I N K
+//	                               the same with a storage fault: the first K commits made from the worker goroutine
+//	                               fail (rolled back) - the task is retried; the follower must have been resumed each time
+//	                                                                                               -> done K | TIMEOUT … | nofault
 
 import (
 	"fmt"
@@ -88,6 +97,10 @@ type protoGate struct {
 	count   int
 	held    chan struct{}
 	release chan struct{}
+	// fault injection for the running-side experiments (eng_proto_live.go): the next `failWorker` commits made
+	// from the worker goroutine are rolled back and fail
+	failWorker int
+	failed     int
 }
 
 func (g *protoGate) arm(role, kind string, k int) {
@@ -178,6 +191,10 @@ type protoGateTx struct {
 
 func (t *protoGateTx) Commit() error {
 	t.g.point("commit")
+	if t.g.takeFault() {
+		_ = t.DBTransaction.Rollback() // nothing reaches the disk, the writer lock is released
+		return errProtoInjected
+	}
 	return t.DBTransaction.Commit()
 }
 
@@ -263,6 +280,14 @@ func (x *protoExec) Exec(a []string) string {
 		return x.stopHold(strings.Split(a[1], ";"))
 	case a[0] == "await" && len(a) == 1:
 		return x.await()
+	case a[0] == "live" && len(a) == 4:
+		return x.live(a[1], a[2], a[3], 0)
+	case a[0] == "livef" && len(a) == 5:
+		k, err := strconv.Atoi(a[4])
+		if err != nil || k < 1 || k > 3 {
+			return "bad-op"
+		}
+		return x.live(a[1], a[2], a[3], k)
 	case a[0] == "restart" && len(a) == 1:
 		if x.started {
 			return "bad-op"
@@ -689,6 +714,12 @@ func genProto(g *Gen) {
 			}
 		}
 		genProtoRace(g)
+		for _, t := range []string{"remove", "import", "none"} {
+			genProtoLive(g, t, 0)
+		}
+		for _, t := range []string{"remove", "import"} {
+			genProtoLive(g, t, 1+g.Rng.Intn(2))
+		}
 	}
 }
 
